@@ -8,14 +8,15 @@ import os, subprocess, sys, tempfile, shutil, concurrent.futures as cf
 SIM = "/verif/sim/target/checked/sim"
 N = int(sys.argv[1]) if len(sys.argv) > 1 else 40
 # (scenario, --from, --runs): windows chosen to include sweeps (corrupt) and the planned grid (limits)
-PLAN = [("chain", 0, 600), ("batch", 0, 400), ("corrupt", 190, 1200), ("limits", 0, 0)]
+# (runs 0..8191 form one long block, executed on one thread: the windows straddle its end so that both kinds of block occur)
+PLAN = [("chain", 7900, 700), ("batch", 8000, 500), ("corrupt", 150, 300), ("corrupt", 7800, 1200), ("limits", 0, 0)]
 
 def one(args):
     scen, seed, frm, runs, threads, out = args
     cmd = [SIM, "inner", scen, "--seed", str(seed), "--from", str(frm), "--runs", str(runs),
            "--threads", str(threads), "--no-evidence", "--digest-out", out, "--replay-dir", os.path.dirname(out)]
     p = subprocess.run(cmd, stdout=subprocess.PIPE, stderr=subprocess.STDOUT, text=True)
-    return (scen, seed, threads, p.returncode, out)
+    return (f"{scen}@{frm}", seed, threads, p.returncode, out)
 
 def main():
     tmp = tempfile.mkdtemp(prefix="verif-det-")
@@ -29,7 +30,7 @@ def main():
                         continue
                     frm, runs = 2400, 520
                 for threads in (1, 16):
-                    jobs.append((scen, 1000 + seed * 7919, frm, runs, threads, f"{tmp}/{scen}-{seed}-{threads}.dig"))
+                    jobs.append((scen, 1000 + seed * 7919, frm, runs, threads, f"{tmp}/{scen}-{frm}-{seed}-{threads}.dig"))
         results = {}
         with cf.ThreadPoolExecutor(max_workers=6) as ex:
             for scen, seed, threads, rc, out in ex.map(one, jobs):
